@@ -275,6 +275,8 @@ def run(rep: Report, tier: str) -> None:
     rep.floor("macro call sites", ncalls, 35)
     rep.analysed = {"sql_limits": sql_limits, "python_limits": py_limits, "shift_cells": ncell, "macro_calls": ncalls}
     iso_year_rule(rep, macros, "R08.5")
+    _date_timeshift_table(P, rep)
+    _time_agg_date_table(P, rep)
     from sa import intdiv
     rep.rule("R08.6", "time macros and generated time SQL: no `/` between integer-typed operands (DuckDB `/` is float division)")
     ndiv = intdiv.rule(rep, P, "R08.6", only_macros=None, skeleton_prefixes=("vtlengine.duckdb_transpiler",))
@@ -300,4 +302,136 @@ def iso_year_rule(rep: Report, macros, rule: str, only=None) -> None:
                 rep.add(Finding(rule, f"{rule}/week-period/{mname}", mac.file, mac.line + body.count("\n", 0, mm.start(1)), f"macro:{mname}",
                                 f"{mname} writes a week period (…'W' || {mm.group(1)}(d)) without taking the year from ISOYEAR(d): ISO week numbers belong to the ISO year, which differs "
                                 f"from the calendar year for the days around New Year (2021-01-01 is 2020-W53, 2019-12-30 is 2020-W01), so those dates get a non-existent or wrong period"))
+        # the strftime idiom: %V (ISO week) must be paired with %G (ISO year), never %Y
+        for mm in re.finditer(r"(?is)\bSTRFTIME\s*\([^,]+,\s*'([^']*%V[^']*)'", body):
+            nweek += 1
+            rep.instance(rule, f"week-period/strftime/{mname}", nontrivial=True, sample=mm.group(0)[:80])
+            if "%G" not in mm.group(1):
+                rep.add(Finding(rule, f"{rule}/week-period/strftime/{mname}", mac.file, mac.line + body.count("\n", 0, mm.start()), f"macro:{mname}",
+                                f"{mname} formats a week period with '{mm.group(1)}': %V is the ISO week and belongs to the ISO year %G; with %Y the days around New Year get a "
+                                f"non-existent or wrong period (2021-01-01 -> 2021-W53, 2024-12-30 -> 2024-W01)"))
     rep.floor(f"{rule} week-period expressions", nweek, 1 if only else 2)
+
+
+def _date_timeshift_table(P: Program, rep: Report) -> None:  # noqa: C901
+    """R08.7  timeshift on a Date identifier: the shifted-date expression that visit_BinOp_timeshift writes is obtained by abstract
+    interpretation of the handler (E6) and evaluated with the concrete SQL-expression evaluator (vtl_dateadd expanded from the
+    macro text) over a calendar grid.  From the property: shifting by n and then by -n returns the original date, and distinct dates
+    of a regular series never collapse into one.  Grid: anchor dates a regular series of that frequency can have (day <= 28 or the
+    last day of a month; any day for W / D), 2019-2021 incl. leap February, n in {1, 2, 3, 5, 12, 14} both directions."""
+    import calendar
+    import datetime as dt
+    from sa import sqlconc, sqlexpr, sqlx as _sqlx, structmodel as sm
+    from sa.e6 import ClassVal, Interp, Raised, Unmodelled
+    rep.rule("R08.7", "Date timeshift: shift(n) then shift(-n) is the identity and shifting is injective on a regular series (expression evaluated over a calendar grid)")
+    f = P.func(f"{sm.TRQ}.visit_BinOp_timeshift")
+    M = sm.Model(P)
+    ds = M.ds("DS", ["T", "A"], ["M"])
+    ds.components["T"].data_type = ClassVal("vtlengine.DataTypes.Date")
+    node = sm.MNode("BinOp", left="DS", op="timeshift", right="N")
+    ext = {"self.visit": lambda x: "n", "self._get_dataset_structure": lambda x: ds, "self._get_dataset_sql": lambda x: '"DS"',
+           "self._resolve_time_identifier": lambda d, op: ("T", ClassVal("vtlengine.DataTypes.Date")), "quote_name": lambda n: f'"{n}"',
+           "self._build_timeshift_date_frequency_subquery": lambda a, b: "⟦freq⟧", "SQLBuilder": sm.MBuilder}
+    try:
+        txt = str(Interp(P, externals=ext).call(f, {"self": sm.MTranspiler(), "node": node}))
+    except (Unmodelled, Raised) as e:
+        raise AnalysisError(f"R08.7: visit_BinOp_timeshift outside the evaluator's language: {e}")
+    m = re.match(r"SELECT (.*?)\nFROM", txt, re.S)
+    items = [i.strip() for i in sm._split_top(m.group(1))] if m else []
+    mine = [i for i in items if i.endswith('AS "T"')]
+    if len(mine) != 1:
+        raise AnalysisError("R08.7: the shifted time identifier expression was not found in the Date branch of visit_BinOp_timeshift")
+    expr_txt = mine[0][:-len('AS "T"')].strip()
+    rep.instance("R08.7", "expression", sample=expr_txt[:200])
+    macros = _sqlx.load_macros(P)
+    try:
+        e = sqlexpr.parse(expr_txt, let=True)
+    except sqlexpr.ParseError as ex:
+        raise AnalysisError(f"R08.7: shifted-date expression not parseable: {ex}")
+
+    def shift(d: dt.date, fq: str, n: int):
+        try:
+            r = sqlconc.ev(e, {'"T"': d, "T": d, "n": n, "freq": {"period_ind": fq}}, macros)
+        except sqlconc.SqlError as ex:
+            return ("error", str(ex)[:40])
+        except sqlexpr.ParseError as ex:
+            raise AnalysisError(f"R08.7: shifted-date expression outside the SQL evaluator's language: {ex}")
+        return r
+    anchors = []
+    for y in (2019, 2020, 2021):
+        for mth in range(1, 13):
+            for day in (1, 15, 28, calendar.monthrange(y, mth)[1]):
+                anchors.append(dt.date(y, mth, day))
+    anchors = sorted(set(anchors))
+    nrt = 0
+    shown = 0
+    n28 = 0
+    for fq in ("A", "S", "Q", "M", "W", "D"):
+        for d in anchors:
+            for n in (1, 2, 3, 5, 12, 14, -1, -2, -3, -5, -12, -14):
+                there = shift(d, fq, n)
+                back = shift(there, fq, -n) if isinstance(there, dt.date) else there
+                nrt += 1
+                if back != d and d.day == 28 and d != d.replace(day=calendar.monthrange(d.year, d.month)[1]):
+                    # one class, one finding: a date on the 28th that lands on 28 February of a common year is taken for a month end there
+                    n28 += 1
+                    if n28 == 1:
+                        rep.add(Finding("R08.7", "R08.7/round-trip/day-28-via-february", f.module.rel, f.node.lineno, f.qualname,
+                                        f"timeshift on a Date series anchored on the 28th: {d.isoformat()} shifted by {n} ({fq}) gives {there}; when the target is 28 February of a common year "
+                                        f"it counts as a month end, so shifting back gives {back} (month end of the origin month), not {d.isoformat()}"))
+                    continue
+                if back != d and shown < 10:
+                    shown += 1
+                    rep.add(Finding("R08.7", f"R08.7/round-trip/{fq}/{d.isoformat()}/{n}", f.module.rel, f.node.lineno, f.qualname,
+                                    f"timeshift on a Date series of frequency {fq}: {d.isoformat()} shifted by {n} gives {there}, and shifting that by {-n} gives {back}, not the original date "
+                                    f"(month-end anchoring must survive the round trip, also across leap Februaries)"))
+        # injectivity on a regular series anchored at month ends (the hard case)
+        months = {"A": 12, "S": 6, "Q": 3, "M": 1}.get(fq)
+        if months:
+            series = []
+            y, mth = 2019, 2
+            for _k in range(8):
+                series.append(dt.date(y, mth, calendar.monthrange(y, mth)[1]))
+                y, mth = divmod(y * 12 + (mth - 1) + months, 12)
+                mth += 1
+            for n in (1, -1, 3):
+                img = [shift(d, fq, n) for d in series]
+                rep.instance("R08.7", f"injective/{fq}/{n}", sample={"series": [x.isoformat() for x in series[:3]], "image": [str(x) for x in img[:3]]})
+                if len(set(map(str, img))) != len(series):
+                    rep.add(Finding("R08.7", f"R08.7/injective/{fq}/{n}", f.module.rel, f.node.lineno, f.qualname,
+                                    f"timeshift by {n} maps two dates of the month-end {fq} series {[x.isoformat() for x in series]} to the same date: duplicate identifiers"))
+    rep.instance("R08.7", "round-trips", sample={"evaluated": nrt, "failing in the day-28 class": n28})
+    rep.floor("R08.7 round trips evaluated", nrt, 5000)
+
+
+def _time_agg_date_table(P: Program, rep: Report) -> None:
+    """R08.8  time_agg of a Date to each period indicator: the text of macro vtl_time_agg_date is evaluated (concrete SQL-expression
+    evaluator) for every day around New Year of six years (52- and 53-week ISO years), all month bounds and the leap days, and the
+    period it writes is compared with the calendar (sa/calx.py): the ISO week belongs to the ISO year, day 366 exists in leap years."""
+    from sa import calx, sqlconc, sqlexpr, sqlx as _sqlx
+    rep.rule("R08.8", "time_agg(Date -> A/S/Q/M/W/D): the period written for a date is the calendar period containing it (macro text evaluated over a grid)")
+    macros = _sqlx.load_macros(P)
+    name = "vtl_time_agg_date"
+    if name not in macros:
+        raise AnalysisError(f"anchor vanished: macro {name}")
+    mac = macros[name]
+    n = 0
+    shown = 0
+    for d in calx.new_year_days():
+        for ind in ("A", "S", "Q", "M", "W", "D"):
+            try:
+                got = sqlconc.call_macro(macros, name, d, ind)
+            except sqlconc.SqlError as ex:
+                got = f"<error {str(ex)[:30]}>"
+            except sqlexpr.ParseError as ex:
+                raise AnalysisError(f"R08.8: {name} is outside the SQL evaluator's language: {ex}")
+            n += 1
+            want = calx.period_of_date(d, ind)
+            gp = calx.parse_period(got) if got is not None else ("null",)
+            if gp != want and shown < 8:
+                shown += 1
+                rep.add(Finding("R08.8", f"R08.8/{ind}/{d.isoformat()}", mac.file, mac.line, f"macro:{name}",
+                                f"time_agg of the date {d.isoformat()} to `{ind}` writes {got!r}; the calendar period containing that date is {want} "
+                                + ("(the ISO week belongs to the ISO year, which differs from the calendar year around New Year)" if ind == "W" else "")))
+    rep.instance("R08.8", "dates-x-indicators", sample={"evaluated": n})
+    rep.floor("R08.8 evaluations", n, 1200)
